@@ -134,7 +134,9 @@ class SymGen:
         if head in ("Any", "typing.Any", "object", "T"):
             return VOpaque(name)
         if short in STREAMS or head in STREAMS:
-            return VStream(name)
+            st = VStream(name)
+            st.prefix = self.leaf(SEQ, name + ".before", args)
+            return st
         if short in LISTLIKE:
             return self.mk_list(None, module, name, args)
         cls = module.resolve_expr_to_class(ann)
